@@ -20,6 +20,7 @@ from cryptoparser.common.base import (
     VectorParsable,
 )
 from cryptoparser.common.parse import ComposerBinary, ParsableBase, ParserBinary
+from cryptoparser.common.utils import convert_naive_datetime_to_utc
 
 from cryptoparser.tls.algorithm import TlsSignatureAndHashAlgorithm, TlsSignatureAndHashAlgorithmFactory
 
@@ -53,7 +54,10 @@ class SignedCertificateTimestamp(ParsableBase, Serializable):
         converter=CertificateTransparencyLog.from_log_id,
         validator=attr.validators.instance_of(CertificateTransparencyLogParamsBase)
     )
-    timestamp = attr.ib(validator=attr.validators.instance_of(datetime.datetime))
+    timestamp = attr.ib(
+        converter=convert_naive_datetime_to_utc,
+        validator=attr.validators.instance_of(datetime.datetime)
+    )
     extensions = attr.ib(
         converter=CtExtensions,
         validator=attr.validators.instance_of(CtExtensions)
